@@ -37,6 +37,19 @@ pub(crate) use self::peers::FetchInfo;
 
 use prelude::*;
 
+/// Entry points of private items for the verification harness (feature `verif` only).
+#[cfg(feature = "verif")]
+pub(crate) mod verif_api {
+    pub(crate) use super::components::{
+        check_continuous_headers, check_if_response_is_matched, verify_mmr_proof, verify_tau,
+        verify_total_difficulty, EpochDifficultyTrend, EstimatedLimit,
+    };
+    pub(crate) use super::peers::{BlocksProofRequest, BlocksRequest, TransactionsProofRequest};
+    pub(crate) use super::sampling::{
+        estimate_k, estimate_samples_count, multiply, sample_blocks, FlyClientPDF,
+    };
+}
+
 pub(crate) use self::peers::{LastState, Peer, PeerState, Peers, ProveRequest, ProveState};
 use super::{
     status::{Status, StatusCode},
